@@ -313,7 +313,7 @@ func init() { vRegister("C12", "c12.stateful", checkC12) }
 func TestVerifC12Stateful(t *testing.T) {
 	vRapid(t, "C12", "c12.stateful",
 		"rapid state machine: actions append a fresh day, a day with an already used date, an empty day, a permutation of an earlier day, or a block of 2-3 days, to a history of up to 8 (quick) / 20 (thorough) blocks over a random book; after every step the 10 per-day reports (3 of them under a fixed -b/-e period) of the concatenated log must equal the concatenation of the parts' reports byte for byte and the 5 period reports the element-wise sum of the parts; non-trivial = >=3 blocks with a repeated date, an empty day or a permuted day",
-		vBudget(1200, 8000), genC12, checkC12)
+		vBudget(800, 8000), genC12, checkC12)
 }
 
 var _ = fmt.Sprint
